@@ -78,6 +78,7 @@ func (m *CPU) Context() *risc.Context {
 }
 
 func (m *CPU) Run(app risc.Application) (int, error) {
+	app.Reset()
 	defer func() {
 		log.Infou(m.ctx, "L3", m.memoryManagementUnit.l3.String())
 	}()
